@@ -343,7 +343,7 @@ class C17Lane(Lane):
     }
 
     def subs(self, tier):
-        return [("direct", 2400), ("core", 600)] if tier == "quick" else [("direct", 120000), ("core", 20000)]
+        return [("direct", 2400), ("core", 600)] if tier == "quick" else [("direct", 240000), ("core", 40000)]
 
     def gen(self, seed, run, sub, tier):
         return gen(seed, run, sub, tier)
